@@ -113,14 +113,11 @@ fn check(e: &Expression, case: &str, rep: &mut Report, nontrivial_key: Option<St
                         return;
                     }
                 }
+                // Entries the executed actions need are proven present by the decoder (a frame whose tag has
+                // no entry is a decode error). Unused surplus entries are not forbidden by the property and
+                // are only counted.
                 let want: HashSet<String> = av.iter().filter_map(|a| target_of(a)).map(|p| format!("{:?}", p)).collect();
-                let extra_ok: HashSet<String> = [format!("{:?}", (Dest::Stdout, Some('\n')))].into_iter().collect(); // -print-file-fid may be routed as a newline-terminated stdout record
-                let missing: Vec<&String> = want.difference(&seen).collect();
-                let surplus: Vec<&String> = seen.difference(&want).filter(|s| !extra_ok.contains(*s)).collect();
-                if !missing.is_empty() || !surplus.is_empty() {
-                    rep.violation("C10:table-content", &format!("destination table differs from the actions' (destination, terminator) pairs: missing {:?}, surplus {:?}", missing, surplus), case, J::obj(vec![("io_map", J::s(crate::sut::io_map_sorted(&compiled.io_map)))]));
-                    return;
-                }
+                rep.add("table_entries_beyond_the_actions_targets", seen.difference(&want).count() as u64);
                 rep.count("tables_checked");
             }
             if let Some(k) = nontrivial_key {
